@@ -115,6 +115,28 @@ def base_case(case):
                       all(0 <= ri[q] < m_ for q in range(len(ri))) and all(ri[q] < ri[q + 1] for j in range(n_) for q in range(cp[j], cp[j + 1] - 1))
                 if not okc: raise CCSInvalid()
         return [list(matrix(o)) + list(o.size) for o in outs if hasattr(o, 'size')]
+    # partial=True with a sparse output operand (y of axpy, C of gemm / syrk): only the stored entries of the output are updated, the pattern
+    # stays; their new values are those of the dense computation (syrk: inside the uplo triangle)
+    part = case['args'].get('partial', {}).get('bool') and case['routine'] in ('axpy', 'gemm', 'syrk')
+    if part:
+        outn = 'y' if case['routine'] == 'axpy' else 'C'
+        if 'sp' in case['args'][outn]:
+            kw = {k: val(v, False) for k, v in case['args'].items()}
+            pos = [kw[k] for k in case.get('pos', [])]
+            named = {k: v for k, v in kw.items() if k not in case.get('pos', [])}
+            O = kw[outn]; pat = list(zip(list(O.I), list(O.J)))
+            getattr(base, case['routine'])(*pos, **named)
+            if list(zip(list(O.I), list(O.J))) != pat: return 'partial-differs'
+            kwd = {k: val(v, True) for k, v in case['args'].items()}
+            posd = [kwd[k] for k in case.get('pos', [])]
+            namedd = {k: v for k, v in kwd.items() if k not in case.get('pos', []) and k != 'partial'}
+            try: getattr(base, case['routine'])(*posd, **namedd)
+            except Exception: return 'ok'
+            D = kwd[outn]; tri = case['args'].get('uplo', {'chr': 'L'})['chr'] if case['routine'] == 'syrk' else None
+            for (i, j), v in zip(pat, list(O.V)):
+                if tri and ((tri == 'L' and i < j) or (tri == 'U' and i > j)): continue
+                if abs(complex(v) - complex(D[i, j])) > 1e-9 * (1 + abs(complex(D[i, j]))): return 'partial-differs'
+            return 'ok'
     try: o1 = call(False)
     except CCSInvalid: return 'ccs-invalid'
     if case.get('twin') and any('sp' in v for v in case['args'].values()):
